@@ -215,6 +215,13 @@ func main() {
 				if comp != primitive.CompressionNone {
 					probe(gen.Case{Name: fmt.Sprintf("%v/%s/write-failure-at-%d", w.v, w.name, k), Frame: f, Invalid: true}, comp, codec)
 				}
+				// and the read side: a decode that runs out of input after k bytes, then the decode of an intact frame
+				_, _ = codec.DecodeFrame(bytes.NewReader(full.Bytes()[:k]))
+				if got, err := codec.DecodeFrame(bytes.NewReader(full.Bytes())); err != nil {
+					c.Violation(map[string]string{"kind": "history-decode-error", "compression": string(comp)}, fmt.Sprintf("%v/%s (%s): after a decode that ran out of input at byte %d, the intact frame no longer decodes: %v", w.v, w.name, comp, k, err), w.name)
+				} else if d := gen.Equal(f, got, fcheck.Ignore); d != "" {
+					c.Violation(map[string]string{"kind": "history-leftover", "compression": string(comp), "side": "decode"}, fmt.Sprintf("%v/%s (%s): after a decode that ran out of input at byte %d, the intact frame decodes differently at %s", w.v, w.name, comp, k, d), w.name)
+				}
 			}
 		}
 	})
